@@ -46,7 +46,11 @@ fn p_ifq4(s: &str) -> Option<vh::Fq4> {
     Some(vh::Fq4::new(p_ifq2(&s[128..])?, p_ifq2(&s[..128])?))
 }
 fn s_ifq4(a: &vh::Fq4) -> String {
-    hex(&a.to_slice())
+    let h = hex(&a.to_slice());
+    match p_ifq4(&h) {
+        Some(c) if c == *a => h,
+        _ => format!("{}|NONCANONICAL-LIMBS", h),
+    }
 }
 fn p_ifq12(s: &str) -> Option<vh::Fq12> {
     if s.len() != 768 {
@@ -55,7 +59,13 @@ fn p_ifq12(s: &str) -> Option<vh::Fq12> {
     Some(vh::Fq12::new(p_ifq4(&s[512..])?, p_ifq4(&s[256..512])?, p_ifq4(&s[..256])?))
 }
 fn s_ifq12(a: &vh::Fq12) -> String {
-    hex(&a.to_slice())
+    // the canonical encoding; a value whose stored limbs are not the canonical ones (e.g. a coefficient stored as q instead
+    // of 0) encodes like the canonical value but is a different value for the derived `==`: flag it
+    let h = hex(&a.to_slice());
+    match p_ifq12(&h) {
+        Some(c) if c == *a => h,
+        _ => format!("{}|NONCANONICAL-LIMBS", h),
+    }
 }
 fn p_ig1(s: &str) -> Option<vh::G1> {
     let v: Vec<&str> = s.split(':').collect();
